@@ -97,30 +97,39 @@ def build(d, cache=None):
         for key, sub in d.get("deps", []):
             deps[key["name"]] = list(key["names"]) if "names" in key else build(sub, cache)
         args["dependencies"] = deps
+    def finish(inst, used):
+        # keywords the constructor does not take can only be there through later assignment
+        for k, v in args.items():
+            if k not in used:
+                setattr(inst, k, v)
+        return inst
+
     if cls == "Element":
         return Element(**args)
     if cls == "Nothing":
-        return Nothing()
+        return finish(Nothing(), set())
     if cls in SIMPLE:
-        return SIMPLE[cls](**{k: v for k, v in args.items() if k in ALLOWED[cls]})
+        return finish(SIMPLE[cls](**{k: v for k, v in args.items() if k in ALLOWED[cls]}), ALLOWED[cls])
     if cls == "Array":
-        items = args.pop("items")
-        keep = {"default", "const", "enum", "additionalItems", "minItems", "maxItems", "uniqueItems", "contains", "description"}
-        return Array(items, **{k: v for k, v in args.items() if k in keep})
+        keep = {"items", "default", "const", "enum", "additionalItems", "minItems", "maxItems", "uniqueItems", "contains", "description"}
+        items = args.get("items", NP)
+        inst = Array(items, **{k: v for k, v in args.items() if k in keep and k != "items"})
+        return finish(inst, keep)
     if cls in COMP:
         members = [build(x, cache) for x in d["elements"]]
         extra = {"default": args["default"]} if "default" in args else {}
-        return COMP[cls](*members, **extra)
+        return finish(COMP[cls](*members, **extra), {"default"})
     if cls == "Not":
         extra = {"default": args["default"]} if "default" in args else {}
-        return Not(build(d["elements"][0], cache), **extra)
+        return finish(Not(build(d["elements"][0], cache), **extra), {"default"})
     if cls == "Object":
         classdict = ObjectClassDict()
-        for name, prop in args.pop("properties", {}).items():
+        for name, prop in args.get("properties", {}).items():
             classdict[name] = prop
-        keep = {"default", "const", "enum", "required", "minProperties", "maxProperties", "patternProperties",
+        keep = {"properties", "default", "const", "enum", "required", "minProperties", "maxProperties", "patternProperties",
                 "additionalProperties", "propertyNames", "dependencies", "description"}
-        return ObjectMeta(d["name"], (Object,), classdict, **{k: v for k, v in args.items() if k in keep})
+        inst = ObjectMeta(d["name"], (Object,), classdict, **{k: v for k, v in args.items() if k in keep and k != "properties"})
+        return finish(inst, keep)
     raise ValueError(cls)
 
 
